@@ -11,7 +11,7 @@ Soundness w.r.t. the matching semantics and transitivity are NOT decided.
 """
 import ast
 
-from ..astutil import call_simple_name, dotted, guard_chain, names_in, returns_of, short
+from ..astutil import call_simple_name, dotted, guard_chain, names_in, pm, pmall, returns_of, short
 from ..cfg import cfg_of
 from ..forward import flow_of
 from ..loader import AnalysisError, ClassInfo, External, FunctionInfo, body_walk, norm, walk_no_nested
@@ -54,7 +54,7 @@ def run(ctx):
 def producers(prog):
     """class names instantiated by the visitor -> ClassInfo, with call sites"""
     vis = prog.cls(PV + "::STIXPatternVisitorForSTIX2")
-    pm = prog.module(PAT)
+    patmod = prog.module(PAT)
     out = {}
     n_sites = 0
     for f in vis.methods.values():
@@ -64,7 +64,7 @@ def producers(prog):
                 if not (isinstance(a0, ast.Constant) and isinstance(a0.value, str)):
                     raise AnalysisError("visitor: instantiate() with a non-literal class name at line %d" % c.lineno)
                 n_sites += 1
-                d = prog.lookup(pm.scope, a0.value)
+                d = prog.lookup(patmod.scope, a0.value)
                 out.setdefault(a0.value, (d, []))[1].append((f, c))
     return out, n_sites
 
@@ -280,12 +280,12 @@ def rule_comparator_mirror(ctx):
     prog = ctx.prog
     R = "C09.comparator-mirror"
     names = {fid.split("::")[1] for fid, _ in COMPARATORS} | {"iter_lex_cmp"}
-    pm = prog.module(PAT)
+    patmod = prog.module(PAT)
 
     def excl(c1, c2):
         def classes(n):
             n = n.strip("()")
-            return [prog.lookup(pm.scope, x.strip()) for x in n.split(",")]
+            return [prog.lookup(patmod.scope, x.strip()) for x in n.split(",")]
         A = [x for x in classes(c1) if isinstance(x, ClassInfo)]
         B = [x for x in classes(c2) if isinstance(x, ClassInfo)]
         if not A or not B:
@@ -318,18 +318,26 @@ def rule_comparator_mirror(ctx):
     # iter_lex_cmp: decision table on the exhaustion flags
     il = prog.func(EQ + ".compare::iter_lex_cmp")
     t = norm(il.node)
-    chain = [n for n in body_walk(il.node) if isinstance(n, ast.If) and norm(n.test) == "it1_exhausted and it2_exhausted"]
+    t = norm(il.node)
+    s1, s2, cb = il.params[0], il.params[1], il.params[2]
+    bnd = pmall(t, "$i1 = iter(%s)" % s1, "$i2 = iter(%s)" % s2, "$v1 = next($i1)", "$v2 = next($i2)")
+    chain = [n for n in body_walk(il.node) if isinstance(n, ast.If) and isinstance(n.test, ast.BoolOp) and isinstance(n.test.op, ast.And)
+             and len(n.test.values) == 2 and all(isinstance(v, ast.Name) for v in n.test.values)]
     ok = False
-    if chain:
+    if chain and bnd:
         c0 = chain[0]
+        x1, x2 = c0.test.values[0].id, c0.test.values[1].id
+        # x1 / x2 are the exhaustion flags of the first / second iterator
+        fl1 = pmall(t, "try:\n            %s = next(%s)\n        except StopIteration:\n            %s = True" % (bnd["v1"], bnd["i1"], x1))
+        fl2 = pmall(t, "try:\n            %s = next(%s)\n        except StopIteration:\n            %s = True" % (bnd["v2"], bnd["i2"], x2))
         txt = norm(c0)
-        ok = "result = 0" in norm(c0.body[0]) and "elif it1_exhausted" in txt and "elif it2_exhausted" in txt
-        # shorter sequence first: it1 exhausted -> -1 ; it2 exhausted -> 1 ; else element comparison in argument order
+        ok = fl1 is not None and fl2 is not None and pm(norm(c0.body[0]), "$res = 0") is not None
+        # shorter sequence first: first exhausted -> -1 ; second exhausted -> 1 ; else element comparison in argument order
         e1 = c0.orelse[0] if c0.orelse else None
-        ok = ok and e1 is not None and norm(e1.test) == "it1_exhausted" and "result = -1" in norm(e1.body[0])
+        ok = ok and e1 is not None and norm(e1.test) == x1 and pm(norm(e1.body[0]), "$res = -1") is not None
         e2 = e1.orelse[0] if e1 is not None and e1.orelse else None
-        ok = ok and e2 is not None and norm(e2.test) == "it2_exhausted" and "result = 1" in norm(e2.body[0])
-        ok = ok and "cmp(val1, val2)" in txt
+        ok = ok and e2 is not None and norm(e2.test) == x2 and pm(norm(e2.body[0]), "$res = 1") is not None
+        ok = ok and ("%s(%s, %s)" % (cb, bnd["v1"], bnd["v2"])) in txt
     run.check(ok, R, key(il.module.relpath, il.qualname, "lexicographic-mirror"), "iter_lex_cmp is not the antisymmetric lexicographic "
               "comparison", file=il.module.relpath, line=il.node.lineno, function=il.qualname,
               expected="both exhausted 0; first exhausted -1; second exhausted 1; else cmp(val1, val2)", found=short(il.node, 200))
@@ -408,7 +416,8 @@ def rule_pipeline(ctx):
               file=st.module.relpath, line=st.node.lineno, function=st.qualname, expected="while this_changed: transform again", found="changed")
     ch = prog.cls(EQ + ".transform::ChainTransformer").methods["transform"]
     t = norm(ch.node)
-    run.check("for transformer in self.__transformers" in t and "= transformer.transform(ast)" in t and "return (ast, changed)" in t, R,
+    ap = ch.params[1]
+    run.check(pmall(t, "for $t in self.__transformers", "%s, $c = $t.transform(%s)" % (ap, ap), "return (%s, $ch)" % ap) is not None, R,
               key(ch.module.relpath, ch.qualname, "applies-all-in-order"), "ChainTransformer no longer threads the AST through every pass",
               file=ch.module.relpath, line=ch.node.lineno, function=ch.qualname, expected="ast, changed = t.transform(ast) for each", found="changed")
 
@@ -426,7 +435,7 @@ def rule_same_decider(ctx):
         creates = [c for c in calls if call_simple_name(c) == "create_pattern_object"]
         ver_ok = all(any(k.arg == "version" and norm(k.value) == "stix_version" for k in c.keywords) for c in creates)
         decide = [n for n in body_walk(fi.node) if isinstance(n, ast.Compare) and norm(n.comparators[0]) == "0" and isinstance(n.ops[0], ast.Eq)
-                  and norm(n.left) == "result"]
+                  and isinstance(n.left, ast.Name) and "observation_expression_cmp" in flow_of(fi).prov(n.left).calls]
         # both patterns go through the normaliser before comparison
         fl = flow_of(fi)
         cmp_calls = [c for c in calls if call_simple_name(c) == "observation_expression_cmp"]
@@ -443,7 +452,7 @@ def rule_same_decider(ctx):
     # the search yields exactly the members for which the decision holds
     ff = prog.func(EQ + "::find_equivalent_patterns")
     ys = [n for n in body_walk(ff.node) if isinstance(n, ast.Yield)]
-    ok = len(ys) == 1 and any(pol and norm(t) == "result == 0" for t, pol, _ in guard_chain(ys[0]))
+    ok = len(ys) == 1 and any(pol and pm(norm(t), "$r == 0") is not None for t, pol, _ in guard_chain(ys[0]))
     lp = next((p for p in _parents(ys[0]) if isinstance(p, ast.For)), None) if ys else None
     ok = ok and lp is not None and norm(lp.iter) == ff.params[1] and norm(ys[0].value) == norm(lp.target)
     run.check(ok, R, key(ff.module.relpath, ff.qualname, "yields-exactly-equivalents"), "the search does not yield exactly the members "
